@@ -93,6 +93,27 @@ def index(ctx: Any) -> List[Ob]:
     he_nodes = [n for n in cfg.nodes if n.kind == 'stmt' and any(t.attr == 'has_entries' for t, _ in attr_stores(n.ast))]
     w = cfg.must_pass_before_exit(cfg.entry, lambda n: n in he_nodes)
     obs.append(ob(R, rem, 'self.has_entries = bool(self._services)', 'removal recomputes emptiness from the service table on every path', ok_rem and w is None))
+    # what is un-indexed is the object that IS registered: the type / host keys used for removal are read from the entry
+    # looked up in the service table, not from the description the caller passed (an update passes the NEW description,
+    # whose type or host may differ from the registered one -- the old buckets would keep the name)
+    from .common import expand
+
+    rme = rem.params[0]
+    lookups = [n_ for n_, vs in local_defs(rem).items() for v in vs if v is not None and any(self_attr(x, rme) == '_services' for x in ast.walk(v))]
+    key_exprs = []
+    for c in walk_local_ordered(rem.node):
+        if isinstance(c, ast.Call) and isinstance(c.func, ast.Attribute):
+            if self_attr(c.func, rme) and any(self_attr(a, rme) in ('types', 'servers') for a in c.args):
+                i_idx = next(i for i, a in enumerate(c.args) if self_attr(a, rme) in ('types', 'servers'))
+                if i_idx + 1 < len(c.args):
+                    key_exprs.append((c, self_attr(c.args[i_idx], rme), c.args[i_idx + 1]))
+        if isinstance(c, ast.Subscript) and self_attr(c.value, rme) in ('types', 'servers'):
+            key_exprs.append((c, self_attr(c.value, rme), c.slice))
+    for c, idx, k in key_exprs:
+        from_registered = any(isinstance(x, ast.Name) and x.id in lookups for x in ast.walk(k)) or any(self_attr(x, rme) == '_services' for x in ast.walk(expand(rem, k)))
+        obs.append(ob(R, rem, c, f'the `{idx}` key used to un-index a service is read from the registered entry (the table lookup), not from the caller\'s description', from_registered, '' if from_registered else f'`{norm(k)}` comes from the description that was passed in: after an update that changes the type or the host the old bucket keeps the name'))
+    if not key_exprs:
+        raise AnalysisError('anchor vanished: index removals in ServiceRegistry._remove')
     # bucket hygiene: every place that removes an element from a bucket of a dict-of-list index
     n_sites = 0
     for f in reg.methods.values():
@@ -105,6 +126,8 @@ def index(ctx: Any) -> List[Ob]:
                 base = c.func.value
                 if isinstance(base, ast.Name):
                     base = _local_def(f, base.id) or base
+                if isinstance(base, ast.Call) and isinstance(base.func, ast.Attribute) and base.func.attr == 'get' and base.args:
+                    base = ast.Subscript(value=base.func.value, slice=base.args[0], ctx=ast.Load())  # d.get(k) reads the bucket d[k]
                 if not isinstance(base, ast.Subscript):
                     continue
                 dexpr = base.value
@@ -609,8 +632,19 @@ def addrnsec(ctx: Any) -> List[Ob]:
     inner = [n for n in cfg.nodes if n.kind == 'for' and n.in_loop]
     if len(inner) < 1:
         raise AnalysisError('anchor vanished: address loop in _add_address_answers')
-    addr_loop = next(n for n in inner if any(call_name(c) == '_dns_addresses' for c in n.calls()))
+    from .common import expand
+
+    addr_loop = next((n for n in inner if any(isinstance(c, ast.Call) and call_name(c) == '_dns_addresses' for c in ast.walk(expand(f, n.ast.iter)))), None)
+    if addr_loop is None:
+        raise AnalysisError('anchor vanished: the loop over the addresses of a service in _add_address_answers')
     avar = norm(addr_loop.ast.target)
+    # every service that shares the host name is answered for: no path round the per-service loop skips its address loop
+    outer = [n for n in cfg.nodes if n.kind == 'for' and not n.in_loop]
+    if len(outer) != 1:
+        raise AnalysisError('anchor vanished: the per-service loop of _add_address_answers')
+    body_starts = [s_ for s_, lab in outer[0].succ if lab == 'iter']
+    skip = [w for s_ in body_starts for w in [None if s_ is addr_loop else cfg.path_avoiding(s_, lambda n: n is outer[0], lambda n: n is addr_loop, skip_start=False)] if w is not None]
+    obs.append(ob(R, f, skip[0][-2].ast if skip and len(skip[0]) > 1 and skip[0][-2].ast is not None else outer[0].ast, 'every service registered under the asked host name has its addresses examined (no service is skipped)', not skip, 'a path of the per-service loop reaches the next service without walking this one\'s addresses' if skip else ''))
     # roles of the locals
     # roles from how the collections are consumed after the loop (robust against edits inside the loop)
     add_v = sorted({norm(st.value) for st in walk_local_ordered(f.node) if isinstance(st, ast.Assign) and isinstance(st.targets[0], ast.Subscript) and norm(st.targets[0].value) == p_set and isinstance(st.value, ast.Name)})
